@@ -87,6 +87,8 @@ impl ModelGen {
         }
         if self.logic { for nm in ["p", "q"].iter().take(1 + r.below(2)) { out.push(VarDecl { name: nm.to_string(), ty: VariableType::Boolean, used: true }); } }
         if r.chance(1, 6) { out.push(VarDecl { name: "unused".into(), ty: VariableType::Real(0.0, 1.0), used: false }); }
+        // now and then a user variable carries a name of the kind the compiler invents for its auxiliaries
+        if r.chance(1, 10) { let k = r.below(out.len()); out[k].name = r.pick(&["$logic_witness_0", "$logic_witness_1", "$or_0", "$and_0", "$abs_0", "$min_0", "$max_0", "$xor_0", "$iff_0", "$implies_0", "$abs_0_positive", "$min_0_select_0", "$max_0_select_1"]).to_string(); }
         out
     }
     fn numeric_vars<'a>(&self, d: &'a [VarDecl]) -> Vec<&'a VarDecl> { d.iter().filter(|v| v.used && !matches!(v.ty, VariableType::Boolean)).collect() }
